@@ -402,6 +402,26 @@ def run_families(pid, plan, rng):
     return S, raw, enc
 
 
+def two_level(pid, S, enc, obs_only=False):
+    """Level 1: is the execution a behaviour of Swarm.tla (SwarmTrace.tla, all invariants in every state)?
+    Level 2, for every execution level 1 does not accept: the property-level reading (SwarmObs.tla).
+    Returns (accepted by level 1, problems = violated formulas of either level, unexplained = executions that
+    level 1 rejects although level 2 finds every property-level formula satisfied)."""
+    if obs_only:
+        acc, strict = 0, []
+        rest = list(range(len(S)))
+    else:
+        acc, strict = sw.validate(pid, S, enc)
+        rest = [i for i in range(len(S)) if i not in sw.LAST_ACCEPTED]
+    probs = [dict(p, kind='invariant') for p in strict if p['inv']]
+    rejected = [p for p in strict if not p['inv']]
+    obs = sw.obs_all(pid, S, enc, rest) if rest else []
+    probs += obs
+    bad = {p['scenario'] for p in probs}
+    unexplained = [p for p in rejected if p['scenario'] not in bad]
+    return acc, probs, unexplained
+
+
 def swarm_check(pid, tier, plan, kinds, design_over=None, extra_oracles=(), vacuity=None, assumptions=(), replay=None, rule='', live=False, need_actions=()):
     V = Verdict(pid, tier)
     rng = random.Random(seed())
@@ -410,8 +430,8 @@ def swarm_check(pid, tier, plan, kinds, design_over=None, extra_oracles=(), vacu
         S = [sw.Scenario(r['scenario'])]
         raw = sw.run_scenarios(pid, S)
         enc = [sw.Encoder(S[0], raw[0]).encode()]
-        acc, probs = sw.validate(pid, S, enc)
-        found = [p for p in probs if p['inv'] and sw.INV_PROP.get(p['inv']) == pid or (not p['inv'] and pid in labels_of(p['event']))]
+        acc, probs, unexplained = two_level(pid, S, enc)
+        found = [p for p in probs if sw.INV_PROP.get(p['inv']) == pid or pid in sw.INV_ALSO.get(p['inv'], ())]
         ov, info = oracles(S[0], raw[0])
         for f in extra_oracles:
             ov += f(S[0], raw[0], info)
@@ -421,27 +441,31 @@ def swarm_check(pid, tier, plan, kinds, design_over=None, extra_oracles=(), vacu
             print('VIOLATION property=%s replay=%s' % (pid, replay))
             return 1
         return 0
-    res, design_viol = design_live(pid, tier) if live else design_check(pid, tier, kinds, design_over)
+    obs_only = bool(os.environ.get('VERIF_OBS_ONLY'))
+    if obs_only:
+        res, design_viol = {'stdout': ''}, None
+    else:
+        res, design_viol = design_live(pid, tier) if live else design_check(pid, tier, kinds, design_over)
     if design_viol:
         V.violation(design_viol, {'design': True, 'tlc': res['stdout'][-3000:]}, None)
     S, raw, enc = run_families(pid, plan, rng)
-    acc, probs = sw.validate(pid, S, enc)
+    acc, probs, unexplained = two_level(pid, S, enc, obs_only)
     counted = 0
     for p in probs:
         i = p['scenario']
         ev = p['event']
-        if p['inv']:
-            prop = sw.INV_PROP.get(p['inv'], 'C12')
-            what = 'invariant %s of Swarm.tla fails in a state of the observed execution (scenario %d, event %d: %s)' % (
-                p['inv'], i, p['event_index'], json.dumps(ev)[:200])
-            mine = (prop == pid) or (p['inv'] == 'NoPanic' and pid in ('C02', 'C09', 'C12', 'C06', 'C01'))
-        else:
-            what = 'observed behaviour is not a behaviour of Swarm.tla: no action explains event %d of scenario %d: %s' % (
-                p['event_index'], i, json.dumps({k: v for k, v in (ev or {}).items() if k not in ('st', 'mp', 'conn')})[:300])
-            mine = pid in labels_of(ev)
+        prop = sw.INV_PROP.get(p['inv'], 'C12')
+        also = sw.INV_ALSO.get(p['inv'], ())
+        level = 'SwarmObs.tla (property level)' if p['kind'] == 'property' else 'Swarm.tla'
+        what = '%s of %s fails in the observed execution (scenario %d, event %s: %s)' % (
+            p['inv'], level, i, p['event_index'], json.dumps({k: v for k, v in (ev or {}).items() if k not in ('st', 'mp', 'conn')})[:260])
+        mine = (prop == pid) or (pid in also)
         if mine:
             V.violation(what, {'scenario': S[i].sc, 'problem': {k: v for k, v in p.items() if k != 'tlc_tail'}, 'tlc': p['tlc_tail'][-1200:]}, None)
             counted += 1
+    for p in unexplained[:5]:
+        log('NOTE: scenario %d is not a behaviour of Swarm.tla (no action explains event %s: %s) but violates no property-level formula of SwarmObs.tla'
+            % (p['scenario'], p['event_index'], json.dumps({k: v for k, v in (p['event'] or {}).items() if k not in ('st', 'mp', 'conn', 'hs', 'sent')})[:200]))
     bind_fail = 0
     stats = {'events': sum(len(e) for e in enc), 'mgr_events': 0, 'completions': 0, 'rotations_executed': 0, 'exits': 0, 'pieces_served': 0,
              'requests_written': 0, 'bitfields_written': 0, 'haves_written': 0, 'keepalive_timeouts': 0, 'bad_piece_exits': 0}
@@ -617,16 +641,18 @@ def oracle_c19(scn, raw, info):
     listed = raw[0]['peers'][1]['addr']
     live = raw[0]['peers'][0]['addr']
     hs_t = [vt for seq, vt, f in info['wire'][listed] if f['k'] == 'Handshake']
+    # the moment the good reply reached the manager (no assumption about the client's retry delays)
+    good_t = [e['vt'] for e in raw if e['src'] == 'mgr' and e['ev'] == 'TrackerPeers' and e.get('n', 0) > 0]
     if not hs_t:
         out.append(('C19', 'after %d failed announces and a good one the listed peer %s was never contacted' % (nfail, listed)))
-    elif hs_t[0] > nfail * 1000 + 5000:
-        out.append(('C19', 'listed peer contacted only at %d ms after %d failed announces' % (hs_t[0], nfail)))
+    elif good_t and hs_t[0] > good_t[0] + 1000:
+        out.append(('C19', 'listed peer contacted only at %d ms, the good reply arrived at %d ms (%d failed announces before)' % (hs_t[0], good_t[0], nfail)))
     # the live connection keeps being served while announces fail
     want = {'Interested': 'RecvInterested', 'NotInterested': 'RecvNotInterested', 'Have': 'RecvHave', 'Choke': 'RecvChoke'}
     mgr = [(e['vt'], e['ev']) for e in raw if e['src'] == 'mgr' and e['peer'] == live]
     late = 0
     for seq, vt, f in info['sends'][live]:
-        if f['k'] in want and vt < nfail * 1000:
+        if f['k'] in want and vt < (good_t[0] if good_t else nfail * 1000):
             if not any(ev == want[f['k']] and vt <= t <= vt + 100 for t, ev in mgr):
                 late += 1
     if late:
@@ -702,10 +728,12 @@ def check_c19(tier, replay=None):
     S = [sw.Scenario(s) for s in scs]
     raw = sw.run_scenarios(pid, S)
     enc = [sw.Encoder(s, r).encode() for s, r in zip(S, raw)]
-    acc, probs = sw.validate(pid, S, enc)
+    acc, probs, unexplained = two_level(pid, S, enc)
     for p in probs:
-        V.violation('tracker scenario %d (%d failures): trace not accepted by Swarm.tla (%s %s)' % (p['scenario'], scs[p['scenario']]['nfail'], p['kind'], p['inv']),
+        V.violation('tracker scenario %d (%d failures): %s %s violated in the observed execution' % (p['scenario'], scs[p['scenario']]['nfail'], p['kind'], p['inv']),
                     {'scenario': scs[p['scenario']], 'problem': {k: v for k, v in p.items() if k != 'tlc_tail'}}, None)
+    for p in unexplained[:3]:
+        log('NOTE: tracker scenario %d is not a behaviour of Swarm.tla (event %s) but violates no property-level formula' % (p['scenario'], p['event_index']))
     for s, r in zip(S, raw):
         ov, info = oracles(s, r)
         for prop, msg in ov + oracle_c19(s, r, info):
@@ -734,10 +762,10 @@ def c06_task_level(V, tier, rng):
     S = [sw.Scenario(s) for s in scs]
     raw = sw.run_scenarios('C06', S)
     enc = [sw.Encoder(s, r).encode() for s, r in zip(S, raw)]
-    acc, probs = sw.validate('C06', S, enc)
+    acc, probs, unexplained = two_level('C06', S, enc)
     for p in probs:
-        if p['inv'] == 'NoPanic' or 'C06' in labels_of(p['event']):
-            V.violation('connection task run with fatal input %s: trace not accepted by Swarm.tla (%s %s at event %s)' % (
+        if p['inv'] == 'NoPanic':
+            V.violation('connection task run with fatal input %s: %s %s violated at event %s' % (
                 scs[p['scenario']].get('fatal'), p['kind'], p['inv'], json.dumps(p['event'])[:200]),
                 {'scenario': scs[p['scenario']], 'level': 'task'}, None)
     ok = 0
